@@ -20,14 +20,17 @@ import numpy as np
 from runner import Infra
 
 ID = "C15"
-LEAN_MODULES = ["PyYetiVerif.Props.C15", "PyYetiVerif.Audit.C15"]
+LEAN_MODULES = ["PyYetiVerif.Props.C15", "PyYetiVerif.Props.C15b", "PyYetiVerif.Props.C15c", "PyYetiVerif.Props.C15d",
+                "PyYetiVerif.Props.C15e", "PyYetiVerif.Audit.C15"]
 AUDIT_FILE = "PyYetiVerif/Audit/C15.lean"
 THEOREMS = [
     "PyYetiVerif.C15." + n
     for n in (
         "nt_algebra nt_solves_coupled nt_algebra_matrix nt_equals_coupled am_inverse tam_additive "
         "am_rigid_limit forms_agree forms_agree_cbtf accImp_additive forms_agree_empty_qset "
-        "pv_empty_qset_order_matters layout_injective layout_in_bounds"
+        "pv_empty_qset_order_matters layout_injective layout_in_bounds "
+        # Props/C15b (cb.cbtf in full), C15c (ntfl complete), C15d (routes, low-frequency expansion), C15e (limit)
+        "cbtf_eom cbtf_frc_blocks cbtf_force_eq_am_times_accel cbtf_force_zero_freq cbtf_zero_freq cbtf_outputs_def cbtf_accel_eq calcAM_pv_eq_cbtfAM calcAM_pv_zero_freq cbtf_save_transparent cbtf_save_not_keyed cbtfE_force_eq_am_times_accel cbtfE_vs_general flippv_partitions parallel_sum_comm nt_reciprocity nt_reciprocity_matrix nt_force_operator_symmetric ntfl_congruence ntfl_R_trace_invariant ntfl_scaling ntfl_R_not_invariant ntfl_pointwise slice3F_pack3F ntflColF_spec ntA_col packAs_vector packAs_matrix routes_agree_general routes_agree_solvers routes_difference routes_agree_beyond_cb routes_disagree_noncb dyn_stiffness_schur_expansion am_low_frequency_expansion lowfreq_regular_tendsto am_low_frequency_limit cb_transform_blocks cb_form_determinate cbtf_low_frequency_expansion cbtf_zero_freq_is_limit"
     ).split()
 ]
 TRUSTED = [
@@ -326,7 +329,9 @@ def _corr_ntfl(ctx, drv, frclim):
         As = rc(b, nf)
         freq = np.arange(nf) + 1.0
         cases.append((b, nf, SAM, LAM, As, freq))
-        req.append("ntfl %d %d %s %s %s" % (b, nf, _cbits(SAM), _cbits(LAM), _cbits(As)))
+        # two executable models of the same routine: `ntflF` (Model/NTPack, request ntflf) and the block formulas
+        # `ntflArrays` (Model/NT, request ntfl)
+        req.append("%s %d %d %s %s %s" % ("ntfl" if it % 3 == 2 else "ntflf", b, nf, _cbits(SAM), _cbits(LAM), _cbits(As)))
     rep = drv.ask(req)
     worst = 0.0
     for (b, nf, SAM, LAM, As, freq), line in zip(cases, rep):
@@ -553,7 +558,10 @@ def _corr_pv(ctx, drv, frclim, ode):
     req = []
     for c in cases:
         r, n = len(c["bset"]), c["M"].shape[0]
-        req.append("ampv %d %d %d %s %s %s %s %s" % (r, n, len(c["freq"]), _cbits(c["M"]), _cbits(c["B"]),
+        op = "ampvf" if len(req) % 3 == 1 else "ampv"  # column by column from cbtfCol (Model/NTCbtf) / block formula
+        if op == "ampvf":
+            ctx.count("calcAM-pv:column-by-column")
+        req.append("%s %d %d %d %s %s %s %s %s" % (op, r, n, len(c["freq"]), _cbits(c["M"]), _cbits(c["B"]),
                                                      _cbits(c["K"]), " ".join(str(int(i)) for i in c["bset"]),
                                                      _fbits(c["freq"])))
     rep = drv.ask(req)
@@ -603,18 +611,404 @@ def _corr_layout(ctx, drv):
             ctx.disagree("layout", q, w, g)
 
 
+
+# ---------------------------------------------------------------------------------------
+# cb.cbtf in full (Model/NTCbtf.lean): every returned array, every form of `a`, cold / warm `save`
+
+
+def _cbtf_cases(ctx):
+    rng = ctx.np_rng(155)
+    n = ctx.pick(240, 2400)
+    out = []
+    for it in range(n):
+        r = int(rng.integers(1, 6))
+        nq = 0 if it % 8 == 5 else int(rng.integers(1, 6))
+        n_ = r + nq
+        sym = it % 2 == 0
+        eps = 0.0 if sym else 0.12
+        M = _rand_spd(rng, n_, 0.5, 4.0) + eps * rng.standard_normal((n_, n_))
+        w = 2 * np.pi * 30
+        K = (_rand_spd(rng, n_, 0.2, 4.0) + eps * rng.standard_normal((n_, n_))) * w * w
+        B = (_rand_spd(rng, n_, 0.1, 2.0) + eps * rng.standard_normal((n_, n_))) * (0.04 * w)
+        units = (1.0, 1.0, 1e-6, 1e4)[it % 4]
+        M, B, K = M * units, B * units, K * units
+        bset = rng.permutation(n_)[:r]
+        if it % 3 == 0:
+            q = np.setdiff1d(np.arange(n_), bset)
+            K[np.ix_(bset, q)] = 0.0
+            K[np.ix_(q, bset)] = 0.0
+        nf = int(rng.integers(1, 5))
+        freq = np.sort(rng.uniform(1.0, 150.0, nf))
+        if it % 4 == 1:
+            freq[0] = 0.0
+        if it % 6 == 2:
+            freq = np.arange(2, 2 + 9 * nf, 9) + int(rng.integers(0, 20))
+        aform = ("vec", "col", "mat", "mat")[it % 4]
+        if aform == "vec":
+            a_in = rng.standard_normal(r)
+            a = np.repeat(a_in[:, None], nf, axis=1) + 0j
+        elif aform == "col":
+            a_in = rng.standard_normal((r, 1)) + 1j * rng.standard_normal((r, 1))
+            a = np.repeat(a_in, nf, axis=1)
+        else:
+            a_in = rng.standard_normal((r, nf)) + 1j * rng.standard_normal((r, nf))
+            a = a_in.copy()
+            if nf == 1:
+                aform = "col"
+        save = ("none", "dict", "warm", "warm")[(it // 4) % 4]
+        if nq == 0 and save == "warm":
+            save = "dict"
+        out.append({"M": M, "B": B, "K": K, "bset": bset, "freq": freq, "nq": nq, "a_in": a_in, "a": a, "aform": aform,
+                    "save": save, "sym": sym})
+    return out
+
+
+def _run_cbtf(cb, rng, c):
+    """the real routine; `warm`: the dictionary comes from an earlier call on the same model with ANOTHER enforced
+    acceleration and ANOTHER frequency vector (other values, other length)"""
+    with warnings.catch_warnings():
+        warnings.simplefilter("ignore")
+        if c["save"] == "none":
+            return cb.cbtf(c["M"], c["B"], c["K"], c["a_in"], c["freq"], c["bset"])
+        save = {}
+        if c["save"] == "warm":
+            f2 = np.sort(rng.uniform(0.5, 200.0, len(c["freq"]) + 2))
+            cb.cbtf(c["M"], c["B"], c["K"], rng.standard_normal(len(c["bset"])), f2, c["bset"], save)
+        return cb.cbtf(c["M"], c["B"], c["K"], c["a_in"], c["freq"], c["bset"], save)
+
+
+def _corr_cbtf(ctx, drv, cb):
+    cases = _cbtf_cases(ctx)
+    rng = ctx.np_rng(156)
+    req = []
+    for c in cases:
+        r, n = len(c["bset"]), c["M"].shape[0]
+        req.append("cbtf %d %d %d %s %s %s %s %s %s" % (r, n, len(c["freq"]), _cbits(c["M"]), _cbits(c["B"]), _cbits(c["K"]),
+                                                        " ".join(str(int(i)) for i in c["bset"]), _cbits(c["a"]),
+                                                        _fbits(np.asarray(c["freq"], dtype=float))))
+    rep = drv.ask(req)
+    worst = 0.0
+    for c, line in zip(cases, rep):
+        if line == "bad-op":
+            raise Infra("driver refused a cbtf request")
+        r, n = len(c["bset"]), c["M"].shape[0]
+        nf = len(c["freq"])
+        rows = r if c["nq"] == 0 else n
+        parts = line.split("|")
+        model = {"frc": _parse_c(parts[0], (r, nf)), "a": _parse_c(parts[1], (rows, nf)),
+                 "d": _parse_c(parts[2], (rows, nf)), "v": _parse_c(parts[3], (rows, nf))}
+        fz = np.asarray(c["freq"], dtype=float)
+        cond = _pv_cond(dict(c, freq=fz))
+        if c["nq"]:
+            cond = np.maximum(cond, _kappa_qq(c["M"], c["B"], c["K"], c["bset"], fz))
+        inp = {"kind": "cbtf", "M": _enc(c["M"]), "B": _enc(c["B"]), "K": _enc(c["K"]), "bset": [int(i) for i in c["bset"]],
+               "freq": [float(x) for x in c["freq"]], "a": _enc(c["a_in"]), "save": c["save"]}
+        ctx.case(("cbtf", c["M"].tobytes()[:64], tuple(int(i) for i in c["bset"])), nontrivial=True,
+                 branch="cbtf:a=" + c["aform"])
+        ctx.count("cbtf:save=" + c["save"])
+        if (fz == 0).any():
+            ctx.count("cbtf:f=0")
+        if c["nq"] == 0:
+            ctx.count("cbtf:empty-qset")
+        if np.any(np.diff(c["bset"]) < 0):
+            ctx.count("cbtf:unsorted")
+        try:
+            tf = _run_cbtf(cb, rng, c)
+        except Exception as e:  # noqa: BLE001
+            ctx.disagree("cbtf", inp, "exception %s: %s" % (type(e).__name__, e), "values")
+            continue
+        done = False
+        for name in ("frc", "a", "d", "v"):
+            got = np.asarray(getattr(tf, name))
+            want = model[name]
+            if got.shape != want.shape:
+                ctx.disagree("cbtf", inp, {"field": name, "shape": list(got.shape)}, list(want.shape))
+                break
+            for j in range(nf):
+                if not cond[j] <= CONDMAX:
+                    ctx.skip("cbtf: condition estimate > 1e5")
+                    continue
+                sc = max(np.abs(want[:, j]).max(), 1e-300)
+                e = np.abs(got[:, j] - want[:, j]).max() / sc
+                if np.abs(want[:, j]).max() == 0.0:
+                    e = np.abs(got[:, j]).max()
+                worst = max(worst, e)
+                if not e <= TOL * max(1.0, cond[j] / 100):
+                    ctx.disagree("cbtf", inp, {"field": name, "freq_index": j, "impl": _enc(got[:, j])},
+                                 {"model": _enc(want[:, j]), "relerr": float(e), "cond": float(cond[j])})
+                    done = True
+                    break
+            if done:
+                break
+        if not np.array_equal(np.asarray(tf.freq, dtype=float), fz) or not np.array_equal(np.asarray(tf.f, dtype=float), fz):
+            ctx.disagree("cbtf", inp, {"field": "freq", "impl": np.asarray(tf.freq).tolist()}, fz.tolist())
+    ctx.extra["cbtf_worst_relerr"] = worst
+
+
+def _corr_packa(ctx, drv, cb):
+    """argument packaging of `a` (exact: shapes and the two ValueErrors of the routine)"""
+    rng = ctx.rng
+    M = np.eye(4)
+    Z = np.zeros((4, 4))
+    req, runs = [], []
+    for _ in range(60):
+        nb = rng.randint(1, 3)
+        lenf = rng.randint(1, 4)
+        if rng.random() < 0.4:
+            ln = rng.choice([nb, nb, lenf, rng.randint(1, 4)])
+            req.append("packa v %d %d %d" % (ln, lenf, nb))
+            a = np.ones(ln)
+        else:
+            rows = rng.choice([nb, nb, rng.randint(1, 4)])
+            cols = rng.choice([1, lenf, lenf, rng.randint(1, 4)])
+            req.append("packa m %d %d %d %d" % (rows, cols, lenf, nb))
+            a = np.ones((rows, cols))
+        runs.append((a, np.arange(lenf) + 1.0, np.arange(nb)))
+    rep = drv.ask(req)
+    for q, (a, freq, bset), g in zip(req, runs, rep):
+        try:
+            tf = cb.cbtf(M, Z, M, a, freq, bset)
+            impl = "ok %d %d" % tf.frc.shape
+        except ValueError as e:
+            impl = "err " + str(e)
+        except Exception as e:  # noqa: BLE001
+            impl = "exception " + type(e).__name__
+        ctx.case(q, nontrivial=False, branch="packa:" + g.split()[0])
+        if impl != g:
+            ctx.disagree("packa", q, impl, g)
+
+
+def _corr_flippv(ctx, drv):
+    from pyyeti import locate
+
+    rng = ctx.rng
+    req, want = [], []
+    for _ in range(80):
+        n = rng.randint(1, 9)
+        r = rng.randint(1, n)
+        bset = rng.sample(range(n), r)
+        req.append("flippv %d %s" % (n, " ".join(map(str, bset))))
+        want.append(" ".join(str(int(i)) for i in locate.flippv(np.array(bset), n)) + ".")
+    rep = drv.ask(req)
+    for q, w, g in zip(req, want, rep):
+        ctx.case(q, nontrivial=False, branch="flippv")
+        if w != g:
+            ctx.disagree("flippv", q, w, g)
+
+
+# ---------------------------------------------------------------------------------------
+# exact streams: Gaussian dyadic rationals, for which every floating-point operation of the real
+# code is exact; the Lean model runs the same definitions in exact rational arithmetic
+
+
+def _gq_tokens(z, den):
+    z = np.asarray(z, dtype=complex).ravel()
+    out = []
+    for x in z:
+        re, im = x.real * den, x.imag * den
+        if re != int(re) or im != int(im):
+            raise Infra("exact stream: input not on the 1/%d grid" % den)
+        out.append("%d %d" % (int(re), int(im)))
+    return " ".join(out)
+
+
+def _parse_gq(s, shape):
+    from fractions import Fraction
+
+    t = s.split()
+    vals = [(Fraction(t[2 * i]), Fraction(t[2 * i + 1])) for i in range(len(t) // 2)]
+    return np.array(vals, dtype=object).reshape(tuple(shape) + (2,))
+
+
+def _exact_eq(got, want):
+    """float complex array == exact rational array, entry by entry, no tolerance"""
+    from fractions import Fraction
+
+    got = np.asarray(got, dtype=complex)
+    if got.shape != want.shape[:-1]:
+        return False
+    for idx in np.ndindex(got.shape):
+        z = got[idx]
+        if not (np.isfinite(z.real) and np.isfinite(z.imag)):
+            return False
+        if Fraction(float(z.real)) != want[idx][0] or Fraction(float(z.imag)) != want[idx][1]:
+            return False
+    return True
+
+
+def _gint(rng, sh, den, lo=-8, hi=9, cplx=True):
+    x = rng.integers(lo, hi, sh).astype(float)
+    if cplx:
+        x = x + 1j * rng.integers(lo, hi, sh)
+    return x / den
+
+
+_UNITS = (1.0, -1.0, 1j, -1j)
+
+
+def _corr_ntfl_exact(ctx, drv, frclim):
+    rng = ctx.np_rng(157)
+    n = ctx.pick(300, 3000)
+    den = 8
+    cases, req = [], []
+    for it in range(n):
+        b = int(rng.integers(1, 6))
+        nf = int(rng.integers(1, 4))
+        SAM = _gint(rng, (b, nf, b), den, cplx=it % 5 != 0)
+        T = np.zeros((b, nf, b), complex)
+        for j in range(nf):
+            perm = rng.permutation(b) if it % 2 else np.arange(b)
+            for i in range(b):
+                T[i, j, perm[i]] = _UNITS[int(rng.integers(0, 4)) if it % 5 else 0] * 2.0 ** int(rng.integers(-2, 4))
+        LAM = T - SAM
+        As = _gint(rng, (b, nf), den, cplx=it % 5 != 0)
+        cases.append((b, nf, SAM, LAM, As, "perm" if it % 2 else "diag"))
+        req.append("ntflx %d %d %d %s %s %s" % (b, nf, den, _gq_tokens(SAM, den), _gq_tokens(LAM, den), _gq_tokens(As, den)))
+    rep = drv.ask(req)
+    for (b, nf, SAM, LAM, As, kind), line in zip(cases, rep):
+        if line == "bad-op":
+            raise Infra("driver refused an ntflx request")
+        parts = line.split("|")
+        if parts[4] != "ok":
+            raise Infra("exact model: (Ms+Ml) Mr = Ms not satisfied by the model's own solver")
+        want = {"A": _parse_gq(parts[0], (b, nf)), "F": _parse_gq(parts[1], (b, nf)), "R": _parse_gq(parts[2], (b, nf)),
+                "TAM": _parse_gq(parts[3], (b, nf, b))}
+        inp = {"kind": "ntfl-arrays", "SAM": _enc(SAM), "LAM": _enc(LAM), "As": _enc(As), "exact": True}
+        ctx.case(("ntflx", b, nf, SAM.tobytes()[:64]), nontrivial=b >= 2, branch="ntfl-exact:" + kind)
+        freq = np.arange(nf) + 1.0
+        try:
+            o = frclim.ntfl(SAM.copy(), LAM.copy(), As.copy(), freq)
+        except Exception as e:  # noqa: BLE001
+            ctx.disagree("ntfl-exact", inp, "exception " + type(e).__name__, "values")
+            continue
+        for name in ("A", "F", "R", "TAM"):
+            if not _exact_eq(getattr(o, name), want[name]):
+                ctx.disagree("ntfl-exact", inp, {"field": name, "impl": _enc(np.asarray(getattr(o, name)))},
+                             {"model": [[str(x) for x in v] for v in want[name].reshape(-1, 2)[:8]]})
+                break
+        # the pass-through fields
+        if not (np.array_equal(o.SAM, SAM) and np.array_equal(o.LAM, LAM) and np.array_equal(np.asarray(o.freq), freq)):
+            ctx.disagree("ntfl-exact", inp, {"field": "SAM/LAM/freq pass-through"}, "inputs returned unchanged")
+
+
+def _corr_cbtf_exact(ctx, drv, cb, frclim):
+    """f = 0: frc, a, v are exact for any dyadic model; d is exact when the q-q blocks are diagonal with power-of-two
+    stiffness (SolveUnc then divides, equation by equation); also calcAM (partition vector) at f = 0"""
+    rng = ctx.np_rng(158)
+    n = ctx.pick(150, 1500)
+    den = 4
+    cases, req = [], []
+    for it in range(n):
+        r = int(rng.integers(1, 4))
+        nq = 0 if it % 7 == 3 else int(rng.integers(1, 4))
+        n_ = r + nq
+        M = _gint(rng, (n_, n_), den, cplx=False)
+        M = M + M.T
+        B = _gint(rng, (n_, n_), den, cplx=False)
+        K = _gint(rng, (n_, n_), den, cplx=False)
+        bset = rng.permutation(n_)[:r]
+        q = np.setdiff1d(np.arange(n_), bset)
+        diag = it % 2 == 0
+        if nq:
+            if diag:
+                for X in (M, B, K):
+                    X[np.ix_(q, q)] = 0
+                M[q, q] = 2.0 ** rng.integers(-2, 3, nq)
+                K[q, q] = 2.0 ** rng.integers(-2, 3, nq)
+                B[q, q] = _gint(rng, nq, den, cplx=False)
+            else:
+                K[np.ix_(q, q)] += np.eye(nq) * 16
+                M[np.ix_(q, q)] += np.eye(nq) * 16
+        a = _gint(rng, r, den, cplx=False)
+        cases.append({"M": M, "B": B, "K": K, "bset": bset, "a": a, "nq": nq, "diag": diag})
+        req.append("cbtfx %d %d %d %s %s %s %s %s" % (r, n_, den, _gq_tokens(M, den), _gq_tokens(B, den), _gq_tokens(K, den),
+                                                      " ".join(str(int(i)) for i in bset), _gq_tokens(a, den)))
+    rep = drv.ask(req)
+    for c, line in zip(cases, rep):
+        if line == "bad-op":
+            raise Infra("driver refused a cbtfx request")
+        r, n_ = len(c["bset"]), c["M"].shape[0]
+        rows = r if c["nq"] == 0 else n_
+        parts = line.split("|")
+        want = {"frc": _parse_gq(parts[0], (r, 1)), "a": _parse_gq(parts[1], (rows, 1)), "d": _parse_gq(parts[2], (rows, 1)),
+                "v": _parse_gq(parts[3], (rows, 1))}
+        inp = {"kind": "cbtf", "M": _enc(c["M"]), "B": _enc(c["B"]), "K": _enc(c["K"]), "bset": [int(i) for i in c["bset"]],
+               "freq": [0.0], "a": _enc(c["a"]), "save": "none", "exact": True}
+        ctx.case(("cbtfx", c["M"].tobytes()[:64], tuple(int(i) for i in c["bset"])), nontrivial=True,
+                 branch="cbtf-exact:" + ("empty-qset" if c["nq"] == 0 else "diag-qq" if c["diag"] else "full-qq"))
+        try:
+            with warnings.catch_warnings():
+                warnings.simplefilter("ignore")
+                tf = cb.cbtf(c["M"], c["B"], c["K"], c["a"], [0.0], c["bset"])
+                am = frclim.calcAM([c["M"], c["B"], c["K"], c["bset"]], [0.0])
+        except Exception as e:  # noqa: BLE001
+            ctx.disagree("cbtf-exact", inp, "exception %s: %s" % (type(e).__name__, e), "values")
+            continue
+        fields = ("frc", "a", "v", "d") if (c["diag"] or c["nq"] == 0) else ("frc", "a", "v")
+        for name in fields:
+            if not _exact_eq(getattr(tf, name), want[name]):
+                ctx.disagree("cbtf-exact", inp, {"field": name, "impl": _enc(np.asarray(getattr(tf, name)))},
+                             {"model": [[str(x) for x in v] for v in want[name].reshape(-1, 2)[:8]]})
+                break
+        # calcAM at f = 0 is m[bset][:, bset] exactly (`calcAM_pv_zero_freq`)
+        if not np.array_equal(np.asarray(am)[:, 0, :], c["M"][np.ix_(c["bset"], c["bset"])]):
+            ctx.disagree("cbtf-exact", dict(inp, kind="calcAM-pv", freq=[0.0]), {"AM(f=0)": _enc(np.asarray(am)[:, 0, :])},
+                         "m[bset][:, bset]")
+
+
+def _corr_packas(ctx, drv, frclim):
+    """shapes through ntfl: np.atleast_2d(As), the routine's size check, numpy's own ValueError (exact)"""
+    rng = ctx.rng
+    req, runs = [], []
+    for _ in range(60):
+        r = rng.randint(1, 3)
+        nf = rng.randint(1, 4)
+        lenf = rng.choice([nf, nf, nf, rng.randint(1, 4)])
+        cl = rng.choice([nf, nf, nf, rng.randint(1, 4)])
+        form = rng.choice(["vec", "mat", "mat", "mat"])
+        if form == "vec":
+            dims = [rng.choice([nf, nf, r])]
+        else:
+            dims = [rng.choice([r, r, r, rng.randint(1, 3)]), rng.choice([nf, nf, nf, rng.randint(1, 4)])]
+        req.append("packas %d %d %d %d %d %d %d %d %s" % (lenf, r, nf, r, r, cl, r, len(dims), " ".join(map(str, dims))))
+        runs.append((np.ones((r, nf, r)) * 2 + 0j, np.ones((r, cl, r)) + 0j, np.ones(dims), np.arange(lenf) + 1.0))
+    rep = drv.ask(req)
+    for q, (SAM, LAM, As, freq), g in zip(req, runs, rep):
+        try:
+            SAMd = SAM + np.eye(SAM.shape[0])[:, None, :]
+            o = frclim.ntfl(SAMd, LAM, As, freq)
+            impl = "ok %s | %s" % (" ".join(map(str, o.A.shape)), " ".join(map(str, o.TAM.shape)))
+        except ValueError:
+            impl = "err ValueError"
+        except Exception as e:  # noqa: BLE001
+            impl = "exception " + type(e).__name__
+        ctx.case(q, nontrivial=False, branch="packas:" + g.split()[0])
+        if impl != g:
+            ctx.disagree("packas", q, impl, g)
+
+
 def correspondence(ctx):
-    frclim, ode, _ = _pyyeti()
+    frclim, ode, cb = _pyyeti()
     drv = ctx.driver("C15")
     _corr_layout(ctx, drv)
+    _corr_flippv(ctx, drv)
+    _corr_packa(ctx, drv, cb)
+    _corr_packas(ctx, drv, frclim)
+    _corr_ntfl_exact(ctx, drv, frclim)
+    _corr_cbtf_exact(ctx, drv, cb, frclim)
     _corr_ntfl(ctx, drv, frclim)
+    _corr_cbtf(ctx, drv, cb)
     _corr_drm(ctx, drv, frclim, ode)
     _corr_pv(ctx, drv, frclim, ode)
     ctx.require_branches(
         ["ntfl-arrays:b=%d" % b for b in range(1, 7)]
         + ["calcAM-drm:default:select", "calcAM-drm:default:dense", "calcAM-drm:freqdirect:select",
            "calcAM-drm:freqdirect:dense", "calcAM-drm:solveunc:select", "calcAM-pv:sym", "calcAM-pv:nonsym",
-           "calcAM-pv:empty-qset", "calcAM-pv:empty-qset-unsorted", "calcAM-pv:f=0", "layout"]
+           "calcAM-pv:empty-qset", "calcAM-pv:empty-qset-unsorted", "calcAM-pv:f=0", "calcAM-pv:column-by-column", "layout",
+           "flippv", "packa:ok", "packa:err", "packas:ok", "packas:err", "ntfl-exact:diag", "ntfl-exact:perm",
+           "cbtf-exact:empty-qset", "cbtf-exact:diag-qq", "cbtf-exact:full-qq",
+           "cbtf:a=vec", "cbtf:a=col", "cbtf:a=mat", "cbtf:save=none", "cbtf:save=dict", "cbtf:save=warm", "cbtf:f=0",
+           "cbtf:empty-qset", "cbtf:unsorted"]
     )
 
 
